@@ -1001,7 +1001,8 @@ def move_imports_to_toplevel(source: str) -> str:
         if i == 0 and not core.match_template(
             node, (ast.Import, ast.ImportFrom, ast.Expr(value=ast.Constant(value=str)))
         ):
-            lineno = min(x.lineno for x in core.walk(node, ast.AST(lineno=int))) - 1
+            # Line 0 does not exist, the first line is as far up as an import can go
+            lineno = max(1, min(x.lineno for x in core.walk(node, ast.AST(lineno=int))) - 1)
             break
     else:
         if root.body:
